@@ -34,6 +34,12 @@ class Stats:
     def check(self, solver, *assumptions):
         t = time.perf_counter()
         r = solver.check(*assumptions)
+        if r == z3.unknown:
+            # one retry: under heavy machine load the wall-clock timeout of a query can fire
+            # although the query needs milliseconds (observed once in tools/selftest.py);
+            # a second `unknown` is reported as such (inconclusive, never success)
+            self.retried = getattr(self, 'retried', 0) + 1
+            r = solver.check(*assumptions)
         self.time += time.perf_counter() - t
         self.queries += 1
         self.results[str(r)] += 1
